@@ -140,6 +140,14 @@ def held_tensors(layer: Any, exclude_types: tuple) -> list[torch.Tensor]:
 def _tensor_state(pre: Any, kfacmod: Any) -> dict[str, Any]:
     """Byte-level snapshot of everything tensor-valued held by K-FAC."""
     out: dict[str, Any] = {'steps': pre.steps}
+    # scalar bookkeeping of the preconditioner itself (counters, per-layer
+    # counters kept in dicts), whatever it is called
+    for k, v in vars(pre).items():
+        if isinstance(v, (int, float, bool, str, type(None))):
+            out[f'pre.{k}'] = v
+        elif isinstance(v, dict) and all(
+                isinstance(x, (int, float, bool)) for x in v.values()):
+            out[f'pre.{k}'] = {str(a): b for a, b in v.items() if b}
     layers = find_instances(pre, kfacmod.layers.base.KFACBaseLayer)
     excl = (kfacmod.layers.modules.ModuleHelper,
             kfacmod.distributed.TorchDistributedCommunicator)
@@ -721,6 +729,11 @@ class RankEnv:
     def op_sched(self, op: dict[str, Any], rec: dict[str, Any]) -> None:
         if self.sched_obj is None:
             return
+        if self.mon.get('read_hps'):
+            # logging the hyper-parameters right after step() and before the
+            # scheduler moves them is as legal as reading them anywhere else
+            rec['hp_before'] = {k: getattr(self.pre, k)
+                                for k in hpmod.HP_NAMES}
         for r in self.sched_lambdas.values():
             r.calls.clear()
         rec['pre_steps'] = self.pre.steps
